@@ -369,6 +369,51 @@ def copy_wire(spec):
         return None, False
 
 
+ALIAS_M_OBS = {}   # "Class.method" -> [copying calls observed, calls that changed the input]
+
+
+def compare_method_alias(chk, M):
+    """the may-alias table of unyt/array.py read back against the live classes (every `unyt_array.<m>` / `unyt_quantity.<m>`
+    routine of the table has the parameter list `inspect.signature` reports), and its verdict on `self` against the
+    copying calls of the conversion sweep: an input that changed needs the verdict 'may be written'"""
+    import inspect
+
+    import unyt
+
+    try:
+        A = json.load(open(os.path.join(core.BUILD, "extract_c18_alias.json"), encoding="utf-8"))["array_routines"]
+    except Exception as e:  # noqa: BLE001
+        chk.disagree("translator", f"no array_routines in extract_c18_alias.json: {e}")
+        return
+    names = sorted(A)
+    reps = M.ask([f"c18.am.params\t{n}" for n in names] + [f"c18.am.written\t{n}" for n in names])
+    written = {}
+    for n, rp, rw in zip(names, reps[:len(names)], reps[len(names):]):
+        got = [x for x in (rp[1].split(",") if len(rp) > 1 else []) if x]
+        written[n] = [x for x in (rw[1].split(",") if len(rw) > 1 else []) if x] if rw and rw[0] == "ok" else None
+        if rp[0] != "ok" or got != A[n]:
+            chk.disagree("c18.am.params", f"{n}: driver {rp} vs translator {A[n]}")
+        if "." in n:
+            cls, m = n.split(".", 1)
+            f = inspect.getattr_static(getattr(unyt, cls), m, None)
+            f = f.fget if isinstance(f, property) else f
+            if f is not None and hasattr(f, "__code__"):
+                chk.case(("alias-method", n))
+                live = [p for p in inspect.signature(f).parameters]
+                if live != A[n]:
+                    chk.disagree("c18.am.params", f"{n}: live parameters {live}, table {A[n]}")
+    for meth, (n_obs, n_chg) in sorted(ALIAS_M_OBS.items()):
+        chk.case(("alias-method-obs", meth))
+        if meth not in written or written[meth] is None:
+            chk.count("alias:method-not-in-array-table")
+            continue
+        if n_chg and "self" not in written[meth]:
+            chk.disagree("c18.am.written", f"{meth}: the input changed in {n_chg} of {n_obs} copying calls, the model's verdict on self is 'cannot be written'")
+        else:
+            chk.count("alias:method-self-intact:confirmed" if not n_chg else "alias:method-self-written:predicted", n_obs)
+    chk.count("alias:array-routines-read-back", len(names))
+
+
 def compare_copy(chk, spec, obs, rep, outcome):
     """copying routes: the model's effect list on the input is the regenerated self-write closure of the
     method; it must be empty exactly when the input is observed unchanged, and (for the modelled
@@ -398,6 +443,11 @@ def compare_copy(chk, spec, obs, rep, outcome):
         chk.disagree("c18.copy.outcome", f"{tag}: model {m_exc} vs unyt {obs['exc']} ({obs['msg'][:60]})", spec)
         return
     changed = bool(obs["delta"]) or bool(obs["unit_obj_delta"])
+    meth = COPY_METHOD.get(spec["route"])
+    if meth and meth.startswith("unyt_"):
+        e = ALIAS_M_OBS.setdefault(meth, [0, 0])
+        e[0] += 1
+        e[1] += 1 if obs["delta"] else 0
     if changed and m_eff == 0:
         chk.disagree("c18.copy.effects", f"{tag}: the input changed ({obs['delta']}), the regenerated source facts list no write to self", spec)
     if m_eff > 0 and not changed and m_exc is None and obs["exc"] is None:
@@ -973,6 +1023,7 @@ def run(tier, seed):
     check_tables(chk, M, X)
     check_alias_table(chk, M)
     run_conversions(chk, M, tier)
+    compare_method_alias(chk, M)
     run_ufuncs(chk, M, tier)
     run_witnesses(chk)
     run_catalogue(chk, tier, seed, M)
